@@ -8,7 +8,7 @@ from . import c09
 
 ID = "C10"
 LEVEL = "fault_enumeration"
-RUNS = {"quick": 30, "thorough": 400}
+RUNS = {"quick": 40, "thorough": 400}
 RUN_ALARM = 900
 RULE = ("for each seeded protocol-conformant program (as C09: 1-3 threads, with and without OVNI_TMPDIR) the fault-free run numbers its N "
         "file-system steps; then every step k x every error that call can return (mkdir: EACCES ENOSPC EROFS; open/fopen/opendir: EACCES "
